@@ -11,13 +11,13 @@ CLAIMED = {
          "binary.PutVarint/Varint and PutUvarint/Uvarint trusted as mutually inverse abstract encodings of 1..10 bytes (ghost model; encoded bytes assumed not overwritten before decoding)"),
  "C05": ("Fold functions total (no division/shift panic) for all operands; MakeInstruction proved for every opcode (an instruction is produced iff the operands fit the opcode's operand table read from the source, it has the table's length and decodes back to the same operands) and ReadOperands proved against the same decoding spec; operand-table arity lemma. Not decided: the emitter's reaction to operand overflow (panic(err) in emit/changeOperand is a known open issue not yet under contract), parser and scanner totality, termination.",
          "OpcodeOperands read mechanically from its initialiser (checked: never assigned outside init); fmt.Errorf returns non-nil"),
- "C13": ("Root symbol table mechanism: Resolve returns a builtin symbol only for a name that is not disabled, keeps the table invariant (a cached builtin symbol exists only for names that are not disabled) and does not touch the disabled set; DisableBuiltin adds every given name to the disabled set and re-establishes the invariant (loop with quantified invariants over the maps); root and isBuiltinDisabled against the ghost root function. Not decided: Resolve through nested (forked) tables, propagation of the disabled set into module tables and the optimizer's evaluator, the compiler's emission sites of GETBUILTIN.",
+ "C13": ("Root symbol table mechanism: Resolve returns a builtin symbol only for a name that is not disabled, keeps the table invariant (a cached builtin symbol exists only for names that are not disabled) and does not touch the disabled set; DisableBuiltin adds every given name to the disabled set and re-establishes the invariant (loop with quantified invariants over the maps); root and isBuiltinDisabled against the ghost root function. Propagation: disabledBuiltinsMap returns the root's set from any nested table; copyMapStringSet (the copy given to a module's table) has exactly the same names (range-loop completeness through the ghost visited set); optimCopyBuiltinStates gives the optimizer's evaluator table every name disabled for the compiler. Not decided: Resolve through nested (forked) tables, the single assignment in compileModule that installs the copy, the shadowed-names half of optimCopyBuiltinStates, the compiler's emission sites of GETBUILTIN.",
          "rootOf is a ghost function defined by axioms over parent links, assumed never reassigned"),
  "C19": ("Safety sweep (no index, slice, nil, assertion, division, make, map or stdlib-precondition panic for well-formed arguments) of 32 builtin function bodies: cap, copy, delete, len, repeat, sort, sortReverse, error, typeName, bool, int, uint, float, char, string, println, globals, isError and the is* predicates. Not covered: append, bytes, chars, contains, printf, sprintf, :makeArray, the generated argument adapters (zfuncs.go), Call.Get, and the fmt, json, strings and time modules.",
          "arguments are non-nil Objects (undefined is the singleton); dynamic method calls on Objects of kinds outside the vocabulary return arbitrary results and do not panic; sort.Slice, strconv, fmt assumed panic-free; strings.Repeat/bytes.Repeat preconditions are obligations"),
- "C20": ("Scalar values cross the Go boundary unchanged: ToObject(ToInterface(o)) is o (same type and value, bit equality for floats) for int, uint, float, char, bool, string and undefined; ToInterface(ToObject(v)) is v for int64, uint64, float64, rune, bool, string and nil; int, uint, uintptr, byte and float32 convert to the uGO value with the same numeric value; lemmas over the real ToObject/ToInterface bodies. ToObject, ToObjectAlt and ToInterface are panic-free (safety sweep, nested values through the functions' own contracts). Not decided: round trips of bytes, arrays and maps (need inductive lemmas over nesting), ToObjectAlt value clauses, the numeric helper conversions, error for unsupported types.",
+ "C20": ("Scalar values cross the Go boundary unchanged: ToObject(ToInterface(o)) is o (same type and value, bit equality for floats) for int, uint, float, char, bool, string and undefined; ToInterface(ToObject(v)) is v for int64, uint64, float64, rune, bool, string and nil; int, uint, uintptr, byte and float32 convert to the uGO value with the same numeric value; lemmas over the real ToObject/ToInterface bodies. ToObject and ToObjectAlt return a value or an error, never both or neither, and a converted []any / map[string]any has no nil element (a nested unsupported value is reported, not dropped); ToObject, ToObjectAlt and ToInterface are panic-free (nested values through the functions' own contracts). Not decided: round trips of bytes, arrays and maps (need inductive lemmas over nesting), ToObjectAlt value clauses, the numeric helper conversions, error for unsupported types.",
          "registry converters trusted (assumed non-nil and panic-free); sync locks no-ops"),
- "C02": ("Only the call-argument binding clause of the statement: entering a compiled function binds fixed parameters to the arguments in order, packs the remaining arguments of a variadic function into an array and leaves every other local undefined - proved for calls from Go (VM.initLocals) and for in-script calls without spread (VM.xOpCallCompiled, flags == 0) against the same clauses, including the frame re-use of a self-recursive tail call. Everything else in the statement (evaluation order, scoping, closures, compound assignment, loops, spread calls, destructuring) is not covered; The tail-call clause is stated on the same function: a frame is re-used only when the instruction after the call is RETURN; the CALL; POP; RETURN shape (the discarded self-call returns the callee's value where ordinary recursion returns undefined) fails that clause and is the one open known finding (KNOWN-FINDING line, see known_findings.json: the repair conflicts with an existing test).",
+ "C02": ("Only the call-argument binding clause of the statement: entering a compiled function binds fixed parameters to the arguments in order, packs the remaining arguments of a variadic function into an array and leaves every other local undefined - proved for calls from Go (VM.initLocals) and for in-script calls without spread (VM.xOpCallCompiled, flags == 0) against the same clauses, including the frame re-use of a self-recursive tail call (after which the stack pointer is back below the callee slot and the abandoned slots are nil); the packed variadic array shares no storage with the caller's arguments or the stack. Everything else in the statement (evaluation order, scoping, closures, compound assignment, loops, spread calls, destructuring) is not covered; The tail-call clause is stated on the same function: a frame is re-used only when the instruction after the call is RETURN; the CALL; POP; RETURN shape (the discarded self-call returns the callee's value where ordinary recursion returns undefined) fails that clause and is the one open known finding (KNOWN-FINDING line, see known_findings.json: the repair conflicts with an existing test).",
          "call preconditions vmCallOK (callee below the arguments, frame fits the stack, a function calling itself has its locals below the callee); one parked obligation (variadic + tail call) listed in the evidence"),
  "C07": ("Installing bytecode, clearing a VM and setting up frame 0 are functions of their inputs only and never write the Bytecode: SetBytecode, Clear (every stack slot nil, cache and globals dropped), initCurrentFrame, clearCurrentFrame, each with a proved frame clause listing exactly the VM fields written. Not decided: the Run prologue as a whole (two-state non-interference), OP_CLOSURE, slots above sp / frames above frameIndex never being read before written.",
          "sync locks no-ops; vmPool.clear modelled through the map component"),
